@@ -54,7 +54,7 @@ CLAIMED = {
 }
 EXTRA_TEXT = {
  "C01": " Added: generators with absolute error counts at the lengths where the double k/n times n falls below k; translator gen_tolerance with generated_full_tolerance; an exception escaping from the implementation is reported as a failure (implementation-raised).",
- "C13": " Added: translator gen_qualwiring (interval kept by -q/-Q/--nextseq-trim on probe reads under both quality encodings) with generated_quality_wiring.",
+ "C13": " Added: translator gen_qualwiring (interval kept by -q/-Q/--nextseq-trim on probe reads under both quality encodings) with generated_quality_wiring; idempotence theorems trim3_idempotent, trim5_idempotent, nextseq_idempotent (trimming an already trimmed read removes nothing more), each also demanded of the implementation on every function-level case.",
  "C15": " Added: translator gen_demux (files created and routing of probe reads, {name} and {name1}/{name2}, duplicate names, one sequence under two names) with generated_demux_files_and_routing, generated_comb_files_and_routing.",
  "C09": " Added: default_pipeline_without_index (without two indexable anchored adapters of one kind the default assembly is the --no-index assembly); the rule oracle is applied in the default mode whenever no index can be built.",
  "C03": " Added: translator gen_actions (every --action on probe reads) with generated_actions_documented. Added: the adapter index is part of the pipeline model (Matchable.indexed, Regroup.lean); indexed_pipeline_marked_slice states the slice property for the default, index-using "
